@@ -66,7 +66,7 @@ pub fn register(l: &mut Vec<Obl>) {
         });
     macro_rules! hexcone_rt {
         ($m:ident, $sfx:literal) => {{
-            $m!(l; concat!("c01_rgb_hsv_rgb", $sfx), "C01", Tier::Thorough,
+            $m!(l; concat!("c01_rgb_hsv_rgb", $sfx), "C01", Tier::Open,
                 "RGB -> HSV -> RGB and RGB -> HSL -> RGB return the colour within 1e-9 for every RGB in [0,1]^3",
                 ["<Hsv<S,T> as FromColorUnclamped<Rgb<S,T>>>", "<Rgb<S,T> as FromColorUnclamped<Hsv<S,T>>>", "<Hsl<S,T> as FromColorUnclamped<Rgb<S,T>>>", "<Rgb<S,T> as FromColorUnclamped<Hsl<S,T>>>"],
                 [var("r", 0.0, 1.0), var("g", 0.0, 1.0), var("b", 0.0, 1.0)];
@@ -177,7 +177,7 @@ pub fn register(l: &mut Vec<Obl>) {
             r.goal("roundtrip", b.saturation.close(v[1], 1e-9) & b.value.close(v[2], 1e-9) & b.hue.into_inner().eqv(v[0]));
             r
         });
-    obl!(l; "c01_linsrgb_oklab_linsrgb", "C01", Tier::Thorough,
+    obl!(l; "c01_linsrgb_oklab_linsrgb", "C01", Tier::Open,
         "linear sRGB -> Oklab -> linear sRGB returns the colour within 1e-4 for every RGB in [0,1]^3 (the published 10-digit matrices are inverse to ~1e-7)",
         ["<Oklab<T> as FromColorUnclamped<Rgb<S,T>>>", "<Rgb<S,T> as FromColorUnclamped<Oklab<T>>>"],
         [var("r", 0.0, 1.0), var("g", 0.0, 1.0), var("b", 0.0, 1.0)];
